@@ -48,8 +48,8 @@ Section Core.
       unfold atoms_l. cbn [flat_map]. rewrite app_nil_r, rej_app, rej_session_ins by exact Hs. reflexivity.
     - (* comment anchors of a session comment *)
       unfold anchor in E.
-      assert (H1 : rej [ACrs cid] = []) by (unfold Doc.rej; cbn [flat_map rej_atom]; now rewrite Hs).
-      assert (H2 : rej [ACre cid] = []) by (unfold Doc.rej; cbn [flat_map rej_atom]; now rewrite Hs).
+      assert (H1 : rej [ACrs cid st] = []) by (unfold Doc.rej; cbn [flat_map rej_atom]; now rewrite Hs).
+      assert (H2 : rej [ACre cid st] = []) by (unfold Doc.rej; cbn [flat_map rej_atom]; now rewrite Hs).
       assert (H3 : rej (atoms st (NRun ru rf [CRef cid])) = []) by (unfold Doc.rej; simpl; now rewrite Hs).
       change (rej (atoms st (NCrs cid)) = []) in H1. change (rej (atoms st (NCre cid)) = []) in H2.
       destruct (has_uid su n && has_uid eu n); [|destruct (has_uid su n); [|destruct (has_uid eu n); [|discriminate]]];
